@@ -544,4 +544,66 @@ theorem C17_limit_stops_as_written (arms : List Arm) (k : Nat) (s : StateV) (env
   rw [C17_runner_as_written_on_model, C17_limit_stops arms k s env h]
   rfl
 
+/-! ### the seeded changes have another meaning
+
+The changes the tie is meant to catch are not merely other text: run on a small machine each gives another result
+than the accepted skeleton (so `exec` tells them apart, and `decide` in Gen/FsmSkeleton.lean fails for a reason). -/
+section mutants
+open MechVerif.FsmIR MechVerif.Arms Stmt
+
+def runnerWith (range : Range) (tArm gArm : Stmt) : Stmt :=
+  seq (forSteps range (seq (setB .transitioned false) (seq (forArms cont tArm gArm) (ite (.not (.var .transitioned)) returnState skip)))) failLimit
+
+theorem runnerWith_expected : runnerWith .exclusive transitionArm guardArm = expectedRunner := rfl
+
+def stA : StateV := ⟨"A", []⟩
+
+/-- `0..=max_steps`: with limit 0 a turn is still made -/
+theorem C17_mutant_inclusive_bound :
+    runSkeleton modelOps (runnerWith .inclusive transitionArm guardArm) 0 [] stA [] = some (.ok (.state stA)) ∧
+    runSkeleton modelOps expectedRunner 0 [] stA [] = some (.error .limit) := ⟨rfl, rfl⟩
+
+/-- a guarded arm without a guard that holds, then a direct arm for the same state -/
+def fallArms : List MArm := [.guard ("A", []) [], .transition ("A", []) (.output (.lit (.bool true)))]
+
+/-- `break` instead of falling through after a guarded arm whose guards all fail: the later arm is not tried -/
+theorem C17_mutant_guards_fail_stops :
+    runSkeleton modelOps (runnerWith .exclusive transitionArm
+        (withPrologue (seq (ite (.not (.var .matched)) cont skip) (seq (forGuards guardBody) brk)))) 1 fallArms stA [] =
+      some (.ok (.state stA)) ∧
+    runSkeleton modelOps expectedRunner 1 fallArms stA [] = some (.ok (.value (.bool true))) := ⟨rfl, rfl⟩
+
+/-- `A(x) -> B`, `B => x` -/
+def leakArms : List MArm :=
+  [.transition ("A", [.sp (.bind 0)]) (.next "B" []), .transition ("B", []) (.output (.var 0))]
+
+/-- `*call_env = arm_env` after the transitions: what `A`'s pattern bound is visible in `B` -/
+theorem C17_mutant_write_back :
+    runSkeleton modelOps (runnerWith .exclusive
+        (withPrologue (ite (.var .matched) (seq (apply .arm .arm) (seq (assign .call .arm) (seq returnIfOut (seq (setB .transitioned true) brk)))) skip))
+        guardArm) 5 leakArms ⟨"A", [.sc (.num .u64 5)]⟩ [] = some (.ok (.value (.num .u64 5))) ∧
+    runSkeleton modelOps expectedRunner 5 leakArms ⟨"A", [.sc (.num .u64 5)]⟩ [] = some (.error (.eval .undef)) := ⟨rfl, rfl⟩
+
+/-- `B(x) -> B`, `A => x` with `x` an input -/
+def shadowArms : List MArm :=
+  [.transition ("B", [.sp (.bind 0)]) (.next "B" []), .transition ("A", []) (.output (.var 0))]
+
+/-- `clear_pattern_bindings(pattern, call_env)` before the clone: scanning past an arm whose pattern names an input
+    loses the input -/
+theorem C17_mutant_clear_before_clone :
+    runSkeleton modelOps (runnerWith .exclusive
+        (seq (clear .call) (seq (clone .call) (seq (matchPat .arm) (ite (.var .matched) (taken .arm) skip))))
+        guardArm) 5 shadowArms stA [(0, .sc (.num .u64 7))] = some (.error (.eval .undef)) ∧
+    runSkeleton modelOps expectedRunner 5 shadowArms stA [(0, .sc (.num .u64 7))] = some (.ok (.value (.num .u64 7))) := ⟨rfl, rfl⟩
+
+/-- an arm whose second guard goes to a state without an arm -/
+def badSecondGuard : List VArm := [.guard (some "A") [[(.next, some "A")], [(.next, some "Z")]]]
+
+/-- only the first guard's transitions validated: the undefined target of the second guard is accepted -/
+theorem C17_mutant_first_guard_validated :
+    runValidator { expectedValidator with checks := [.declared .all, .start, .targets .all .first .all] }
+        FErr.undefinedState badSecondGuard (some []) (some "A") = .ok () ∧
+    runValidator expectedValidator FErr.undefinedState badSecondGuard (some []) (some "A") = .error .undefinedState := ⟨rfl, rfl⟩
+
+end mutants
 end MechVerif.Fsm
